@@ -17,6 +17,14 @@ CHECKS = {
             "implementation paths; the reverse direction validates randomly drawn 64-bit operand events with TLC.",
             "Trusted: TLC, the BigInt module (self-checked against native integers at base 4), the Python projection "
             "of results. Rounding of inexact double results is out of model.", "5/C01"),
+    "C02": ("TLA+ spec CelLogic (outcome-class algebra of && || ! ?: all exists) checked by TLC; every generated nesting "
+            "replayed into both runners and celtypes.logical_*; random deep programs validated by TLC trace spec Trace_C02",
+            "TLC enumerates every linear nesting of the logical operators over the outcome classes {true, false, error, two "
+            "non-booleans} up to the size bound and every element-outcome list for all()/exists(), checks commutativity, "
+            "duality, deciding-operand absorption and laziness on the specification, and each state is rendered to CEL with "
+            "a rotating palette of failing sub-expressions and evaluated under both runners.",
+            "Trusted: TLC, the renderer/classifier of the harness. Outcomes the statement leaves open are marked indefinite "
+            "in the spec and never compared.", "5/C02"),
 }
 NOT_YET = "check not built yet in this phase (planned per DESIGN.md section 5)"
 
